@@ -18,6 +18,8 @@ import Driver.Suites.Parse
 import Driver.Suites.Paths
 import Driver.Suites.Tar
 import Driver.Suites.Remove
+import Driver.Suites.Registry
+import Driver.Suites.ResumeCodec
 /-! Table of suites known to the driver.  One line per suite (merge=union friendly). -/
 namespace Driver
 def registry : List Suite := [
@@ -46,5 +48,8 @@ def registry : List Suite := [
   Suites.Paths.suite,
   Suites.Tar.suite,
   Suites.Remove.suite,
+  Suites.Registry.suite,
+  Suites.Registry.suiteConcurrent,
+  Suites.ResumeCodec.suite,
 ]
 end Driver
